@@ -1,7 +1,7 @@
 (** Model/Wal.v — the write path of the WAL protocol as a generator of system-call events.
 
     Mirrors (commit under /repo at build time; constants come from Generated/Src_durab.v):
-      executor/writer.go:66-140   WriteRecords        -> [write_records]  (prevYear quirk included)
+      executor/writer.go:66-140   WriteRecords        -> [write_records]
       executor/wal.go:226-261     FlushToWAL          -> [flush]
       executor/wal.go:263-340     FlushCommandsToWAL  -> [flush_events], [prim_events]
       executor/wal.go:380-457     writeFixedBuffer / writeVariableLengthBuffer / writePrimary
@@ -69,15 +69,16 @@ Definition add_row (b : batch) (cc : cmd) (r : wrow) : cmd :=
      c_data := match b_kind b with KFixed => [r_rec r] | KVar => c_data cc ++ [r_rec r] end;
      c_vrl := c_vrl cc; c_meta := c_meta cc |}.
 
-(** The loop of WriteRecords (writer.go:89-136).  QUIRK kept: [prevYear] is assigned for the first row
-    only; when the slot changes only [prevIndex] is updated (writer.go:125-128). *)
+(** The loop of WriteRecords (writer.go:89-137).  When the slot changes both [prevIndex] and [prevYear] are
+    updated (writer.go:127-128).  Before /repo 49eddda (fix of finding F3) [prevYear] was assigned for the
+    first row only and a row of an unsorted cross-year request could be merged into another year's command. *)
 Fixpoint wr_loop (b : batch) (rows : list wrow) (prevIndex prevYear : Z) (cc : cmd) : list cmd :=
   match rows with
   | [] => [cc]
   | r :: rest =>
       if (r_index r =? prevIndex) && (r_year r =? prevYear)
       then wr_loop b rest prevIndex prevYear (add_row b cc r)
-      else cc :: wr_loop b rest (r_index r) prevYear (cmd_of b r)
+      else cc :: wr_loop b rest (r_index r) (r_year r) (cmd_of b r)
   end.
 
 Definition write_records (b : batch) : list cmd :=
